@@ -33,6 +33,7 @@ def typesIn : Val → List Ty
   | .sensitive v => typesIn v
   | .deferred _ as => typesInL as
   | .param _ t _ v _ => t :: typesIn v
+  | .obj _ vs => typesInL vs
   | _ => []
 def typesInL : List Val → List Ty
   | [] => []
@@ -79,7 +80,7 @@ def kind : Val → Nat
   | .undef => 0 | .dflt => 1 | .bool _ => 2 | .int _ => 3 | .float _ => 4 | .str _ => 5 | .regexp _ => 6
   | .binary _ => 7 | .array _ => 8 | .entry _ _ => 8 | .hash _ => 9 | .typ _ => 10 | .timespan _ => 11
   | .timestamp _ _ => 12 | .uri _ => 13 | .semver _ => 14 | .vrange _ _ => 15
-  | .sensitive _ => 16 | .tname _ _ _ => 16 | .deferred _ _ => 16 | .param _ _ _ _ _ => 16
+  | .sensitive _ => 16 | .tname _ _ _ => 16 | .deferred _ _ => 16 | .param _ _ _ _ _ => 16 | .obj _ _ => 16
 
 def kindHead : Nat → Bytes
   | 0 => [1, 0x75] | 1 => [1, 0x64] | 2 => [1, 0x62] | 3 => [1, 0x69] | 4 => [1, 0x66] | 5 => [1, 0x73]
@@ -355,6 +356,7 @@ theorem mk_iff (hT : ∀ a b, TyWF a = true → TyWF b = true → tyKey a = tyKe
   · intro a n m y cx; simp [cmp] at cx
   · intro n as _ y cx; simp [cmp] at cx
   · intro n t hv v c _ y cx; simp [cmp] at cx
+  · intro t vs _ y cx; simp [cmp] at cx
 
 /-! ### the direction that needs no hypothesis about types: equal keys ⇒ equal values -/
 
@@ -453,6 +455,7 @@ theorem mk_imp (hT : ∀ a b, TyWF a = true → TyWF b = true → tyKey a = tyKe
   · intro a n m y cx; simp [cmp] at cx
   · intro n as _ y cx; simp [cmp] at cx
   · intro n t hv v c _ y cx; simp [cmp] at cx
+  · intro t vs _ y cx; simp [cmp] at cx
 
 /-! ### top level: `px.ToKey` -/
 
